@@ -117,3 +117,196 @@ PROPS["C17"] = dict(
         K("c17::c17_prefix_44", T, encodes="as prefix_32", bounds="len(m) <= 44", mem=16, timeout=5400),
     ],
 )
+
+PROPS["C10"] = dict(
+    functions=_PARSE_FUNCS,
+    bounds="every accepted message of up to 36 bytes (quick; fits every order/subset of the three seal attributes with empty MI/SHA256 values) / 40 bytes (thorough); two-buffer check up to 32 bytes",
+    outside=["messages longer than 40 bytes", "the byte range covered by the HMAC is asserted in C04 (validate_integrity recorder)"],
+    stubs=[_CRC_STUB],
+    jobs=[
+        K("c10::c10_tail_36", encodes="exposed attributes of every accepted message == explicit table over the accepted seal tails", bounds="len 0..=36", mem=16, timeout=2400),
+        K("c10::c10_two_buffers_32", encodes="two messages equal up to the end of the first integrity attribute expose the same attributes up to it", bounds="len <= 32 each", mem=16, timeout=2400,
+          unwindset=[["kani/src/c10.rs", "splice", 34]]),
+        K("c10::c10_tail_40", T, encodes="as tail_36", bounds="len 0..=40", mem=24, timeout=7200),
+    ],
+)
+
+_AGENT_FUNCS = ["StunAgent::{send,poll,handle_stun,take_outstanding_request,validated_peer,is_validated_peer,request_transaction,mut_request_transaction}",
+                "StunRequestState::{new,poll}", "StunRequestMut::{cancel,cancel_retransmissions,peer_address}", "send_data", "Transmit::{new,into_owned}",
+                "MessageBuilder::{build,has_attribute,transaction_id,has_class}"]
+_AGENT_STUBS = ["Message::validate_integrity -> unconstrained verdict (agent logic decided for both verdicts; what the verdict should be is C04)",
+                "MessageIntegrity::compute -> unconstrained 20 bytes (send harnesses)",
+                "StunRequestState::poll -> verif_poll_abstract (outcome chosen freely per request) ONLY in the *_agg* harnesses that decide how StunAgent::poll combines several requests",
+                "std HashMap/HashSet -> fixed-capacity (3) array models under cfg(kani) with harness-chosen iteration order"]
+_AGENT_ASSUME = ["pre-states are arbitrary states satisfying the representation invariant R (timeout_i <= len, last_send_time set, cancel implies cancel_retransmissions); the one-step results extend to histories of any length because every API call preserves R (asserted)",
+                 "pre-state requests carry two retransmission intervals taken from a fixed configuration per harness ([500,1000]+8000, [0,1]+0, [39500,3840000]+7680000 ms); instants are fully symbolic (seconds < 2^40)",
+                 "iteration orders of the outstanding map are enumerated as constants (2 of 2 for two requests; 6 of 6 for three requests in the thorough tier)"]
+_AGENT_OUT = ["more than 3 concurrent transactions", "two or more requests with the REAL per-request poll in one query (does not finish in 50 min; covered compositionally: single-request harness + aggregation harness)",
+              "threads", "instants beyond 2^40 s"]
+
+
+def _agent(pid, quick, thorough, extra_assume=()):
+    jobs = []
+    for h, enc in quick:
+        jobs.append(K("agenth::" + h, encodes=enc, bounds="one API call from an arbitrary valid state", mem=10, timeout=2400))
+    for h, enc in thorough:
+        jobs.append(K("agenth::" + h, T, encodes=enc, bounds="one poll over 2 outstanding requests with abstract per-request outcomes", mem=26, timeout=5400))
+    PROPS[pid] = dict(functions=_AGENT_FUNCS, bounds="one arbitrary API call from an arbitrary valid agent state with <= 2 outstanding requests (3 in the aggregation harnesses of the thorough tier), both transports, symbolic instants",
+                      outside=_AGENT_OUT, stubs=_AGENT_STUBS, assumptions=_AGENT_ASSUME + list(extra_assume), jobs=jobs)
+
+
+_POLL1 = "poll(now) on one outstanding request == reference state machine (wait/transmit/timeout/cancelled, state update)"
+_AGG = "StunAgent::poll over several requests: event for some due request, else WaitUntil(earliest); only that request changes"
+_HANDLE = "handle_stun(any class, id in/not in the outstanding set, any source) == model: delivered/dropped/incoming, outstanding set, state untouched on drop, validated peers"
+_CANCEL = "cancel / cancel_retransmissions touch only the flags of their transaction"
+_SEND = "send(request/indication/response): duplicate refused and nothing changed; else transmitted bytes == build(), addressing, initial schedule"
+
+_agent("C05",
+       [("c05_poll_one", _POLL1), ("c05_handle_step", _HANDLE), ("c05_cancel_step", _CANCEL), ("c05_send_step", _SEND + " (no integrity)"),
+        ("c05_send_step_sha1", _SEND + " (SHA-1 integrity)")],
+       [("c05_agg2_o0", _AGG + " (2 requests, order 0,1,2)"), ("c05_agg2_o2", _AGG + " (2 requests, order 1,0,2)"), ("c05_send_step_sha256", _SEND)])
+_agent("C06",
+       [("c06_poll_one", _POLL1 + " [500,1000]+8000 ms"), ("c06_poll_one_zero", _POLL1 + " [0,1]+0 ms"), ("c06_poll_one_long", _POLL1 + " [39500,3840000]+7680000 ms (beyond one hour)"),
+        ("c06_cancel_step", _CANCEL), ("c06_send_step", _SEND + "; default 500..16000+8000 ms / TCP 39500 ms")],
+       [("c06_agg2_o0", _AGG), ("c06_agg2_o2", _AGG)])
+_agent("C07", [("c07_handle_step", _HANDLE), ("c07_send_step", _SEND + "; request_had_credentials false without integrity attribute"),
+               ("c07_send_step_sha1", "request_had_credentials true with MESSAGE-INTEGRITY"), ("c07_send_step_sha256", "request_had_credentials true with MESSAGE-INTEGRITY-SHA256")], [])
+_agent("C15", [("c15_handle_step", _HANDLE), ("c15_send_step", "sending never changes the validated set"), ("c15_cancel_step", "cancel never changes the validated set"),
+               ("c15_poll_one", "poll never changes the validated set")], [])
+_agent("C18", [("c18_poll_one", _POLL1 + "; retransmitted bytes == stored request bytes (symbolic), addressing"), ("c18_send_step", _SEND + " (symbolic attribute value)"),
+               ("c18_cancel_step", "peer_address of an outstanding request")], [("c18_agg2_o0", _AGG + "; bytes of the served request"), ("c18_agg2_o2", _AGG)])
+_agent("C20", [("c20_poll_one", "poll result and reported instants are the model's function of (state, now) only"), ("c20_send_step", "stored send instant == the `now` passed in"),
+               ], [("c20_agg2_o0", _AGG)],
+       extra_assume=["no-ambient-state half: Kani fails any harness that can reach clock_gettime/getrandom or another foreign function; every agent harness passing means none is reachable from send/poll/handle_stun/cancel (std HashMap's RandomState seed is excluded by the map model)"])
+
+PROPS["C14"] = dict(
+    functions=["TcpBuffer::{new,push_data,pull_data,take}"],
+    bounds="every stream content of N bytes pushed as two chunks cut at P1, for the enumerated (N, P1) pairs (N 2..=8; all cut points for N = 6), a pull after each push and two more (4 pulls); "
+           "frame lengths are symbolic (read from the stream): frames of 0..=6 bytes incl. empty frames",
+    outside=["frames longer than 6 bytes (up to 65535 in the statement): the code compares and splits by length only; `read_u16 as usize + 2` is shown not to overflow by the MIR->SMT query",
+             "more than 2 pushes; chunk sizes are enumerated constants because Vec operations with symbolic sizes exceed 16 GB in CBMC (measured)"],
+    jobs=[K("c14::c14_" + n, tiers, encodes="pull_data after every push == next frame of the stream pushed so far, None iff no complete frame buffered; a None pull leaves later pulls unaffected",
+            bounds=n, mem=6, timeout=1200)
+          for n, tiers in [("n6_p0", Q), ("n6_p1", Q), ("n6_p2", Q), ("n6_p3", Q), ("n6_p4", Q), ("n6_p5", Q), ("n2_p1", Q), ("n4_p2", Q), ("n7_p2", Q), ("n7_p5", T), ("n5_p3", T), ("n8_p4", T)]]
+         + [S("smt::stun-proto", encodes="MIR->SMT: `read_u16 as usize + 2` and `data_length - 2` in TcpBuffer::pull_data cannot overflow", bounds="all u16 lengths", crate="stun-proto", min_sites=2)],
+)
+
+PROPS["C09"] = dict(
+    functions=["Fingerprint::{compute,new,to_raw,write_into_unchecked,try_from,XOR_CONSTANT}", "MessageBuilder::{add_fingerprint,add_fingerprint_unchecked,build}", "Message::from_bytes (Fingerprint branch)", "crc::Crc<u32>::checksum (table driven)"],
+    bounds="CRC equivalence for every byte string of 0..=8 / 16 (quick) / 28 (thorough) bytes; builder and parser with the REAL CRC on [header, one 4-byte attribute, FINGERPRINT] (36 bytes) with all non-structural bytes symbolic",
+    outside=["messages of another shape with the real CRC (the parser/builder logic around the CRC is decided for every CRC value and every shape <= 44 bytes in C02/C03)",
+             "burst-error detection is a property of the CRC-32 polynomial: once the parser accepts iff value == crc32(bytes before it) (decided here for all 2^224 contents), a burst of <= 32 bits that leaves the FINGERPRINT in place changes crc32 and is rejected; the polynomial property itself is not re-proved"],
+    jobs=[
+        K("c09::c09_crc_8", encodes="Fingerprint::compute == bitwise reflected CRC-32/ISO-HDLC", bounds="len 0..=8", mem=8),
+        K("c09::c09_crc_16", encodes="same", bounds="len 0..=16", mem=10, timeout=2400),
+        K("c09::c09_crc_check_value", encodes="CRC('123456789') == 0xcbf43926 for both the implementation and the reference", bounds="1 vector"),
+        K("c09::c09_xor_constant", encodes="wire value == CRC ^ 0x5354554e in to_raw, write_into, from_raw", bounds="all 2^32 CRC values"),
+        K("c09::c09_builder_fingerprint_real_crc", encodes="add_fingerprint: value == crc32_ref(message up to attribute with length covering it) ^ constant", bounds="all type/id/attribute bytes", mem=12, timeout=2400),
+        K("c09::c09_parser_fingerprint_real_crc", encodes="from_bytes accepts [hdr, attr, FP] iff FP value == crc32_ref(own bytes) ^ constant", bounds="all 2^224 contents", mem=12, timeout=2400),
+        K("c09::c09_crc_28", T, encodes="same as crc_8", bounds="len 0..=28", mem=16, timeout=5400),
+    ],
+)
+
+_c12 = [K("c12::c12_" + n, encodes="write_into == to_raw().to_bytes(); padded length; zero padding; nothing beyond touched; short destination -> TooSmall and untouched",
+          bounds="destination sizes 0..=64 (24 for raw), all values within the C08 bounds", mem=8, timeout=1800)
+        for n in ["username", "realm", "nonce", "software", "alternate_domain", "error_code", "unknown_attributes", "message_integrity",
+                  "message_integrity_sha256", "userhash", "fingerprint", "priority", "use_candidate", "ice_controlled", "ice_controlling",
+                  "password_algorithm", "password_algorithms", "xor_mapped_address", "alternate_server", "raw_attribute"]]
+_MEMO_UW = [["kani/src/stubs.rs", "matches", 82], ["kani/src/stubs.rs", "store", 82], ["kani/src/stubs.rs", "sha1_verify_memo_stub", 22],
+            ["kani/src/stubs.rs", "sha256_verify_memo_stub", 34]]
+_MEMO_STUB = "Fingerprint::compute, MessageIntegrity(Sha256)::{compute,verify} -> memoising uninterpreted functions (unconstrained output, same input => same output): results hold for every MAC/CRC function"
+_BUILD_FUNCS = ["Message::builder", "MessageBuilder::{add_raw_attribute,add_attribute,add_message_integrity,add_message_integrity_unchecked,add_fingerprint,add_fingerprint_unchecked,"
+                "integrity_bytes_from_message,build,write_into,byte_len,into_owned,clone,has_attribute,has_any_attribute}", "AttrOrRaw::{write_into,into_owned}",
+                "RawAttribute::{write_into_unchecked,into_owned}", "Message::from_bytes", "MessageAttributesIter::next"]
+for _n in ["paths_l1_none", "paths_l3_fp", "paths_l2_mi_fp"]:
+    _c12.append(K("builder::c12_" + _n, encodes="build() == write_into(exact) == write_into(larger) prefix, suffix untouched, same after clone()/into_owned(); shorter -> TooSmall, nothing written",
+                  bounds="one raw attribute (symbolic type, 1..3 value bytes) + seals", mem=24, timeout=2400, unwindset=_MEMO_UW))
+PROPS["C12"] = dict(
+    functions=["AttributeWriteExt::write_into", "AttributeWrite::{write_into_unchecked,to_raw} of the 19 built-in types and RawAttribute", "RawAttribute::to_bytes"] + _BUILD_FUNCS,
+    bounds="every value within the C08 bounds (text <= 6 bytes, lists <= 3 entries) x every destination size 0..=64; builders with one raw attribute and seal combinations",
+    outside=["value lengths 10..=763 (same copy code, not re-run per length)", "builders with more than one ordinary attribute"],
+    stubs=[_MEMO_STUB],
+    jobs=_c12,
+)
+
+PROPS["C03"] = dict(
+    functions=_BUILD_FUNCS,
+    bounds="all classes x methods x transaction ids; one raw attribute of symbolic non-seal type and symbolic content with 0..=5 value bytes (every padding residue) x the 8 sealing combinations {none, MI, SHA256, MI+SHA256, FP, MI+FP, SHA256+FP, MI+SHA256+FP}",
+    outside=["more than one ordinary attribute before the seals", "typed attributes inside a built message (their writers are decided per type in C12/C08)", "values longer than 5 bytes; total size near 64 KiB"],
+    stubs=[_MEMO_STUB],
+    jobs=[K("builder::c03_rt_" + n, tiers, encodes="build -> from_bytes: lengths, header length field, class/method/tid, attribute order/values, seal attributes read back",
+            bounds=n, mem=24, timeout=2400, unwindset=_MEMO_UW)
+          for n, tiers in [("l1_none", Q), ("l4_fp", Q), ("l2_mi", Q), ("l1_mi_sha_fp", Q), ("l3_sha", T), ("l0_mi_fp", T), ("l1_mi_sha", T), ("l5_sha_fp", T)]],
+)
+
+
+PROPS["C04"] = dict(
+    functions=["Message::validate_integrity", "MessageIntegrityCredentials::make_hmac_key", "MessageIntegrity::{verify,compute}", "MessageIntegritySha256::{verify,compute}",
+               "Message::{from_bytes,raw_attribute}", "MessageAttributesIter::next", "hmac/sha1/sha2/md-5 crates (portable back-ends) on fixed inputs"],
+    bounds="validation: every accepted message of <= 64 bytes with <= 2 attributes x every short-term password of 0..=3 ASCII bytes; MAC compare: all 2^160 (SHA-1) / all expected values of each length 16..32 (SHA-256) on one fixed (data, key); long-term key on one fixed credential triple",
+    outside=["collision / forgery resistance of HMAC-SHA1, HMAC-SHA256, MD5: 'any other key or any changed byte fails' is decided as 'every byte up to the integrity attribute, the length field, the key and the expected value reach the MAC unmodified' (recorder, symbolic probe index); that the MAC then differs is the cryptographic assumption",
+             "messages with more than 2 attributes; HMAC values for inputs other than the embedded vectors (independent implementation: CPython hmac/hashlib)"],
+    stubs=["MessageIntegrity::verify / MessageIntegritySha256::verify -> recorder + unconstrained verdict in c04_validate_record and c04_long_term_key", _CRC_STUB],
+    jobs=[
+        K("c04::c04_validate_record", encodes="validate_integrity: which attribute is checked, HMAC input = message up to it with rewritten length, expected = its value, key = password, verdict = MAC verdict, missing attribute reported",
+          bounds="len <= 64, <= 2 attributes, password <= 3 bytes", mem=24, timeout=3000),
+        K("c04::c04_long_term_key", encodes="long-term key == MD5(user:realm:password) (independent value)", bounds="credentials user/realm/pass", mem=10, timeout=2400),
+        K("c04::c04_verify_sha1_all_expected", encodes="MessageIntegrity::verify(d,k,e) is Ok iff e == HMAC-SHA1(k,d) (independent value), compute returns it", bounds="all 2^160 e, fixed d (28 bytes) and k", mem=16, timeout=3000),
+        K("c04::c04_verify_sha256_all_expected", T, encodes="MessageIntegritySha256::verify with truncated expected values", bounds="all e of length 16,20,..,32", mem=16, timeout=5400),
+    ],
+)
+
+PROPS["C11"] = dict(
+    functions=_BUILD_FUNCS + ["Message::validate_integrity"],
+    bounds="8 operation sequences of length 4 over {add raw X, add raw Y, add typed SOFTWARE, SHA-1 integrity, SHA-256 integrity, fingerprint, into_owned, clone} chosen to hit every rule of the statement "
+           "(duplicate, after integrity, after fingerprint, SHA-1 after SHA-256, duplicate seals, refused-after-into_owned/clone); message type, transaction id, attribute values and the queried type are symbolic",
+    outside=["sequences other than the 8 enumerated ones and sequences longer than 4 (the statement asks for all sequences up to length 7): the guards read only the set of attribute types present, which these sequences drive through every combination of {ordinary, MI, SHA256, FP} present/absent that a refusal depends on",
+             "add_attribute/add_raw_attribute with a seal type (documented panic)"],
+    stubs=[_MEMO_STUB, "core::str::from_utf8 -> RFC 3629 reference (Software::new in the harness)"],
+    jobs=[K("builder::c11_ops_%d" % o, tiers, encodes="each operation refused exactly per the ordering rules; a refused operation leaves byte_len/has_attribute/build unchanged; final message parses, validates, queries agree",
+            bounds="ops %d" % o, mem=24, timeout=3000, unwindset=_MEMO_UW)
+          for o, tiers in [(1141, Q), (4546, Q), (5456, Q), (6456, Q), (3736, T), (2861, T), (1253, T), (4675, T)]],
+)
+
+PROPS["C16"] = dict(
+    functions=["Message::{check_attribute_types,unknown_attributes,bad_request,builder_error}", "AttributeType::comprehension_required", "ErrorCode::new", "UnknownAttributes::new",
+               "MessageBuilder::{add_attribute,into_owned,build}", "Message::from_bytes", "Message::attribute"],
+    bounds="every accepted request of <= 28 bytes (<= 2 attributes) x every supported/required list of <= 2 types; the 420/400 responses parsed back for all methods, ids and (two) unsupported types; all 65536 types for comprehension_required",
+    outside=["QUICK TIER: the policing verdict itself (check_attribute_types) is only decided in the thorough tier -- its error-response builder path is 3.3 M symex steps (> 10 min) even for a header-only request; the quick tier decides the classification of all 65536 types and the wire form of the response attributes",
+             "requests with more than 2 attributes, lists longer than 2", "non-request messages: policing them panics in builder_error (observed by reading and a native test, see DESIGN 8; no solver harness finishes on that path)"],
+    stubs=[_CRC_STUB],
+    jobs=[
+        K("c16::c16_comprehension_required_all_types", encodes="comprehension_required(t) == (t < 0x8000)", bounds="all 65536 types"),
+        K("c16::c16_error_attributes_wire", encodes="ERROR-CODE 420/400 and UNKNOWN-ATTRIBUTES (the attributes of every policing response) encode as RFC 8489 requires, list order preserved", bounds="all pairs of types"),
+        K("c16::c16_verdict", T, encodes="check_attribute_types == oracle: 420 iff an exposed type < 0x8000 is unsupported, else 400 iff a required type is absent, else None; response class/id/attributes", bounds="len <= 28, lists <= 2", mem=20, timeout=3000),
+        K("c16::c16_response_420_parses_back", T, encodes="420 response: Error class, request method and id, ERROR-CODE 420, UNKNOWN-ATTRIBUTES == the unsupported types in message order; parses back", bounds="all methods/ids, two symbolic types", mem=24, timeout=7200),
+        K("c16::c16_response_400_parses_back", T, encodes="400 response parses back with ERROR-CODE 400", bounds="all methods/ids/required type", mem=24, timeout=3000),
+    ],
+)
+
+_C08_DECODE = ["message_integrity", "message_integrity_sha256", "userhash", "fingerprint", "priority", "use_candidate", "ice_controlled", "ice_controlling",
+               "alternate_server", "xor_mapped_address", "username", "realm", "nonce", "software", "alternate_domain", "error_code_len8", "error_code_all_pairs",
+               "unknown_attributes", "password_algorithm", "password_algorithms"]
+PROPS["C01"] = dict(
+    functions=_PARSE_FUNCS + ["<T as TryFrom<&RawAttribute>>::try_from for the 19 built-in T", "Message::{attribute,validate_integrity,check_attribute_types}", "AttributeHeader::try_from"],
+    bounds="whole-message functions: every byte string of 0..=32 bytes (quick) / 44 (thorough); RawAttribute::from_bytes on every buffer of 0..=70000 bytes; typed decoders on every value of the C08 bounds and all 65536 types; "
+           "64 KiB arithmetic: every checked-arithmetic site of from_bytes / validate_integrity / padded_attr_len / builder length code as a bit-vector query over root ranges up to 70000 (contracts.json)",
+    outside=["the tracing-subscriber path (no-op shim = no subscriber installed)", "Display/Debug formatting (not encoded: format! machinery; see DESIGN)", "whole-message behaviour between 45 bytes and 64 KiB except through the MIR->SMT kernels",
+             "allocation failure, stack depth"],
+    stubs=[_CRC_STUB, "MessageIntegrity(Sha256)::verify -> recorder (c04_validate_record, registered here for panic freedom of validate_integrity)", "core::str::from_utf8 -> RFC 3629 reference in the typed harnesses"],
+    jobs=[
+        K("c01::c01_message_type_any_length", encodes="MessageType::from_bytes / try_from on 0..=4 bytes: no panic", bounds="len 0..=4"),
+        K("c01::c01_header_any_length", encodes="MessageHeader::from_bytes: no panic", bounds="len 0..=24"),
+        K("c01::c01_raw_attribute_small", encodes="RawAttribute::from_bytes, AttributeHeader::try_from: no panic, value inside buffer", bounds="len 0..=16"),
+        K("c01::c01_raw_attribute_70000", encodes="RawAttribute::from_bytes across the 16-bit boundary", bounds="len 0..=70000", mem=24, timeout=2400),
+        K("c01::c01_inspect_32", encodes="from_bytes on arbitrary bytes, then full iteration, has_attribute(q), class queries: no panic, terminates", bounds="len 0..=32", mem=12, timeout=2400),
+        K("c01::c01_typed_error_code", encodes="attribute::<ErrorCode>() on every accepted message", bounds="len 0..=32", mem=12, timeout=2400),
+        K("c04::c04_validate_record", encodes="validate_integrity with arbitrary short-term credentials: no panic, unreachable!() not reached", bounds="len <= 64, <= 2 attributes", mem=24, timeout=3000),
+        S("smt::stun-types", encodes="MIR->SMT: no checked-arithmetic site of the message/attribute length code can overflow for sizes up to 70000 / messages up to 65555 bytes", bounds="root ranges of smt/contracts.json",
+          crate="stun-types", min_sites=20),
+    ] + [K("c08::c08_" + n, encodes="T::from_raw on arbitrary raw attributes: no panic", bounds="as C08", mem=6) for n in _C08_DECODE]
+      + [K("c01::c01_inspect_44", T, encodes="as inspect_32", bounds="len 0..=44", mem=24, timeout=7200),
+         K("c01::c01_typed_xor_mapped_address", T, encodes="attribute::<XorMappedAddress>()", bounds="len 0..=32", mem=12, timeout=2400),
+         K("c01::c01_typed_username", T, encodes="attribute::<Username>()", bounds="len 0..=32", mem=12, timeout=2400),
+         K("c01::c01_typed_fingerprint", T, encodes="attribute::<Fingerprint>()", bounds="len 0..=32", mem=12, timeout=2400)],
+)
